@@ -62,6 +62,9 @@ pub const CORPUS: &[&str] = &[
     // notes on references (diagnosed), same name for an ingredient and a cookware item, stray markers
     "@a{1} @&a{}(x) #p #&p(big) #a{} @&a{2} #&a ~- wait @+ b #? c\n",
     "---- Pancakes ----\n@b{1}\n---\nk: v\n---\nlast\n",
+    // intermediate references whose step / section index exceeds the number of ingredients
+    "one\n\n> note\n\ntwo\n\nthree\n\nUse @&(3)chopped things{} and @&(~2)that{1%kg}\n",
+    "= A\nstep\n= B\nstep\n= C\nUse @&(=2)mix{} then @&(=~1)other{}\n",
 ];
 
 fn edit_symbols(tier: Tier) -> Vec<&'static str> {
